@@ -32,6 +32,9 @@ func c14PathSets() []getReq {
 		{Label: "list-ifx", Paths: []Path{P("ifx")}},
 		{Label: "partial-key-ok2", Paths: []Path{P("ok2", K{"k1", "x"})}},
 		{Label: "full-key-ok2", Paths: []Path{P("ok2", K{"k1", "x"}, K{"k2", "y"})}},
+		{Label: "leaf-below-2key-entry", Paths: []Path{P("ok2", K{"k1", "x"}, K{"k2", "y"}, "v")}},
+		{Label: "key-leaf-of-2key-entry", Paths: []Path{P("ok2", K{"k1", "x"}, K{"k2", "y"}, "k2")}},
+		{Label: "leaf-below-3key-entry", Paths: []Path{P("ok3", K{"k1", "x"}, K{"k2", "y"}, K{"k3", "z"}, "v")}},
 		{Label: "two-paths", Paths: []Path{P("sys", "hostname"), P("if", e10)}},
 		{Label: "absent-entry", Paths: []Path{P("if", K{"name", "zz"})}},
 		{Label: "leaf-list", Paths: []Path{P("sys", "dns")}},
